@@ -201,6 +201,10 @@ def gen_cases(tier, seed):
     for k in range(cfg['rand']):
         d = D.wf_random(rng)
         cases.append({'id': f'rand{k}', 'stream': 'rand', 'feature': rng.random() < 0.3, 'def': d})
+        if k % 5 == 2:
+            cd = D.collide_variant(d, rng)
+            if cd is not None:
+                cases.append({'id': f'coll{k}', 'stream': 'collide', 'feature': rng.random() < 0.3, 'def': cd})
         if k % cfg['mut_every'] == 0:
             for j, (rule, m) in enumerate(D.mutations(d, rng)):
                 cases.append({'id': f'mut{k}.{j}.{rule}', 'stream': 'mut', 'feature': False, 'def': m, 'rule': rule})
